@@ -47,13 +47,16 @@ CHECKS = {
     note=TRUST_KANI + " CString::default (a C string literal, unsupported by Kani 0.68) is stubbed by an equivalent construction."),
  "C04": dict(
     engine="z3-relang (+ kani-real)", category="translation_validation",
-    technique="translation validation by SMT: z3 regular-language equivalence (all string lengths) between the regex the real pattern compiler emits and the POSIX reading, over a bounded-exhaustive pattern family; counterexample strings replayed through the real matcher",
+    technique="translation validation by SMT: z3 regular-language equivalence (all string lengths) between the regex the real pattern compiler emits and the POSIX reading, over a bounded-exhaustive pattern family; (prefix / suffix removal: native conformance validation of the real expansion at solver-chosen witness strings - not a decision over all strings); counterexample strings replayed through the real matcher",
     text=("For every pattern of a bounded-exhaustive family (all token sequences up to a length bound over the "
           "metacharacter alphabet, bracket expressions with a probe member over every ASCII punctuation character, "
           "brackets in context, every class name) and all four anchoring configurations (plus literal_period), z3 "
           "proves that the language of the regular expression emitted by the real yash-fnmatch translator equals "
           "the language POSIX pattern notation denotes - for strings of every length. Shortest/longest prefix and "
-          "suffix selection and case's first-match rule are outside (regex search order / command execution)."),
+          "suffix removal is NOT decided for all strings (regex search order has no counterpart in z3's regular-language "
+          "theory): the real ${x#pat} ${x##pat} ${x%pat} ${x%%pat} expansion is validated natively at z3-chosen witness "
+          "strings (two matching cuts, repeated match, leading period, multi-byte character at the cut) for every pattern "
+          "of a second bounded-exhaustive family. case's first-match rule is outside (command execution)."),
     design_ref="DESIGN.md §6 C04",
     note=("Trusted: regex-syntax's parse of the emitted text into HIR (the parser the regex crate uses) and the regex crate "
           "matching per that HIR; z3 5.1 sequence theory; the reference POSIX reading (e2/relang.py, POSIX locale). The "
